@@ -83,6 +83,9 @@ def call_builtin(run, name, args, kwargs, node, fr):
             return Val(TInt, z3.Length(v.t))
         if isinstance(ty, (TDict, TSet)):
             return Val(TInt, ty.size(v.t))
+        h = run.x.reg.stubs.get(("len", ty.name))
+        if h is not None:
+            return h(run, v)
         raise err(f"len of {ty}")
     if name == "isinstance":
         return Val(TBool, isinstance_check(run, args[0], args[1], node))
